@@ -1041,6 +1041,10 @@ func (ex *Exec) instr(in ssa.Instruction) {
 			v = vc.ifacePayload(x.T, i.AssertedType)
 		}
 		okN := vc.define(i.Name()+".ok", sBool, ok)
+		if _, isPtr := i.AssertedType.Underlying().(*types.Pointer); isPtr && !isIface(i.AssertedType) {
+			// A-TYPEDNIL: an interface value whose dynamic type is a pointer type holds a non-nil pointer
+			vc.assume(fmt.Sprintf("(=> %s (=> %s (not (= %s 0))))", g, okN, v))
+		}
 		if i.CommaOk {
 			vN := vc.define(i.Name()+".v", vc.sortOf(i.AssertedType), fmt.Sprintf("(ite %s %s %s)", okN, v, vc.zero(i.AssertedType)))
 			ex.vals[i] = &Val{Tup: []*Val{{T: vN}, {T: okN}}}
